@@ -69,12 +69,26 @@ ASSUMPTIONS = [
     "derivatives of the array with respect to the coordinates of f; leaf Forms are polynomials of degree <= 2 in each coefficient, derivatives are "
     "only generated while the degree is <= 4, where the 5-point difference quotient with step 1 is exact",
     "coefficients(): lower bound = objects on whose data the expected array numerically depends; upper bound = operands of the recipe",
+    "not judged (counted): arguments() of results built from a Form whose integrands are all Zero (0*F, empty Form: class Form has lost its "
+    "arguments), results that are not base forms (adjoint(Coargument) is an Argument), objects whose arguments()/coefficients() raise "
+    "(FormSum holding such an Argument), compositions UFL rejects by raising, parents of a node that already violates",
 ]
-BUDGET = {"quick": 60, "thorough": 400}
-NCASES = {"quick": 2400, "thorough": 30000}
+BUDGET = {"quick": 50, "thorough": 400}
+NCASES = {"quick": 2400, "thorough": 16000}
 CASE_TIMEOUT = 60.0
 EVAL_COUNTER = "nodes_checked"
-FLOORS = {"quick": {"nodes_checked": 10, "value_agree": 10}, "thorough": {"nodes_checked": 10, "value_agree": 10}}
+_Q = {"nodes_checked": 10000, "value_agree": 10000, "arguments_ok": 10000, "coefficients_ok": 11000, "dependency_probes": 4000,
+      "held_Action": 2800, "held_Adjoint": 1100, "held_FormSum": 4500, "held_derivative": 1100, "held_map_integrands": 750,
+      "held_depth>=3": 2200, "operand_rechecks": 2500}
+FLOORS = {"quick": _Q, "thorough": {k: int(v * 5.5) for k, v in _Q.items()}}
+_OPS = ["0+A", "0-A", "A+0", "A+0.0", "A+Zero", "A-0", "Action", "Adjoint", "F(f,..)", "FormSum()", "action", "add", "adjoint", "call",
+        "derivative", "expand_derivatives", "map_integrands(id)", "matmul", "mul", "neg", "scale", "sub", "sum()"]
+_COVER = {"operations_held": _OPS, "families_held": ["Action", "Adjoint", "FormSum", "derivative", "map_integrands"],
+          "result_types": ["Action", "Adjoint", "Coargument", "Cofunction", "Form", "FormSum", "Matrix", "ZeroBaseForm"],
+          "derivative_operands_held": ["FormSum wrt Coefficient,in-operand,direction,auto", "Action wrt Coefficient,in-operand,direction,auto",
+                                       "Form wrt Coefficient,in-operand,direction,coefficient", "Form wrt Coefficient,not-in-operand,direction,argument",
+                                       "Cofunction wrt Cofunction,in-operand,direction,auto", "Matrix wrt Coefficient,not-in-operand,direction,auto"]}
+COVER_FLOORS = {"quick": _COVER, "thorough": _COVER}
 
 CELLS = [("interval", 1), ("triangle", 2), ("triangle", 2), ("triangle", 2), ("tetrahedron", 3)]
 TOL = 1e-8
@@ -85,7 +99,7 @@ GRAY = 1e-5
 
 
 class Node:
-    __slots__ = ("op", "kids", "slots", "vec", "ufl", "unexp", "fn", "syn", "deg", "conjd", "depth", "sig", "bad", "memo", "kind", "info", "lossy")
+    __slots__ = ("op", "kids", "slots", "vec", "ufl", "unexp", "fn", "syn", "deg", "conjd", "depth", "sig", "bad", "memo", "kind", "info", "lossy", "nder")
 
     def __init__(self, op, kids, slots, obj, fn, syn=(), deg=None, conjd=(), vec=False, kind=None, unexp=None, info=None):
         self.op = op
@@ -104,6 +118,7 @@ class Node:
         self.bad = any(k.bad for k in kids)
         self.memo = {}
         self.info = info
+        self.nder = max((k.nder for k in kids), default=0) + (1 if op == "derivative" else 0)
         # class Form derives its arguments from its integrands: a Form whose integrands are all Zero (0*F, empty Form) has lost
         # them, and whatever is built from it reports accordingly; class Form is outside the statement
         self.lossy = any(k.lossy for k in kids) or has_degenerate_form(obj) or (unexp is not None and has_degenerate_form(unexp))
@@ -600,7 +615,7 @@ class Case:
     def op_derivative(self):
         rng, m = self.rng, self.m
         a = self.pick_baseform()
-        if a.slots is None:
+        if a.slots is None or a.nder >= 2:
             return None
         r = rng.random()
         cands_in = sorted(k for k in a.syn if a.deg.get(k, 0) <= 4 and k not in a.conjd)
@@ -626,6 +641,8 @@ class Case:
             hn = rng.choice(self.coefs[i])
             du, mode = hn.ufl, "coefficient"
         n = m.dims[i]
+        # exact difference quotients of a polynomial: central 2-point for degree <= 2, 4-point for degree <= 4
+        stencil = ((1, 6.0), (-1, -6.0)) if a.deg.get(k, 0) <= 2 else ((1, 8.0), (-1, -8.0), (2, -1.0), (-2, 1.0))
 
         def fn(ov):
             base = m.value(k, ov)
@@ -633,7 +650,7 @@ class Case:
             out = np.zeros(x0.shape + (n,), dtype=complex)
             for j in range(n):
                 acc = 0
-                for s, wt in ((1, 8.0), (-1, -8.0), (2, -1.0), (-2, 1.0)):
+                for s, wt in stencil:
                     ov2 = dict(ov)
                     v = np.array(base, dtype=complex)
                     v[j] += s
@@ -1014,6 +1031,9 @@ def check_coefficients(case, node, obj, fam, tag, E_, Emag):
         ctx.count("coefficients_listed_twice")
         ctx.covered("coefficients_listed_twice", sig_ops(node))
     if E_ is None:
+        return
+    if node.nder >= 2:
+        ctx.count("dependency_not_probed_nested_derivative")
         return
     for k in sorted(node.syn):
         if k in got:
